@@ -43,6 +43,52 @@ def generate(rng: random.Random, tier: str):
                 yield S.history_case(fam, tr.before, tr.steps, tr.doc, "transform-history", ops)
 
 
+    # mark steps over textblocks whose content expression counts inline children (family "counted")
+    yield from counted_cases(rng, 6 if quick else 60)
+
+
+def counted_cases(rng, n):
+    from prosemirror.transform import AddMarkStep, RemoveMarkStep
+    fam = "counted"
+    sc = gen.family(fam)
+    marks = [sc.mark("em"), sc.mark("strong"), sc.mark("code")]
+    for _ in range(n):
+        blocks = []
+        for _ in range(rng.randint(1, 3)):
+            if rng.random() < 0.7:
+                kids = []
+                for _ in range(2):
+                    if rng.random() < 0.8:
+                        ms = [m for m in marks if rng.random() < 0.4]
+                        kids.append(sc.text(rng.choice(["a", "bc", "\U0001F600"]), ms))
+                    else:
+                        kids.append(sc.nodes["hard_break"].create())
+                # two adjacent text nodes with the same marks would be merged by the constructor: keep them apart
+                if all(k.is_text for k in kids) and Mark_same(kids[0].marks, kids[1].marks):
+                    kids[1] = sc.nodes["hard_break"].create()
+                blocks.append(sc.nodes["pair"].create(None, kids))
+            else:
+                blocks.append(sc.nodes["paragraph"].create(None, [sc.text("p")]))
+        doc = sc.nodes["doc"].create(None, blocks)
+        try:
+            doc.check()
+        except ValueError:
+            continue
+        size = doc.content.size
+        for _ in range(4):
+            a, c = sorted((rng.randint(0, size), rng.randint(0, size)))
+            if rng.random() < 0.5:
+                a, c = 0, size
+            m = rng.choice(marks)
+            st = AddMarkStep(a, c, m) if rng.random() < 0.5 else RemoveMarkStep(a, c, m)
+            yield S.apply_case(fam, doc, st, True, "counted-inline")[0]
+
+
+def Mark_same(a, b):
+    from prosemirror.model import Mark
+    return Mark.same_set(a, b)
+
+
 def rebuild(desc):
     if desc.get("case") == "history":
         return S.rebuild_history(desc)
@@ -74,6 +120,46 @@ def _closed_wrapper(doc, st):
                 return True
         return False
     return closed_invalid(inserted.content, inserted.open_start, inserted.open_end)
+
+
+def _merged_counted_text(sc, doc, st):
+    """Known upstream semantics: a mark step that makes two adjacent text nodes of a node lying ENTIRELY inside
+    its range equally marked merges them (Fragment.from_array); when the node's content expression counts its
+    inline children the node becomes invalid, and nothing re-validates closed nodes inside the replaced slice.
+    Matches only when every invalid node of the result is such a node: same type as the node at the same position
+    in the document (mark steps keep all positions), fewer children, inside the range."""
+    try:
+        res = st.apply(doc)
+    except Exception:  # noqa: BLE001
+        return None
+    if res.doc is None or _valid(res.doc) or not _valid(doc):
+        return None
+    bad = []
+
+    def visit(n, pos, *_):
+        if n.is_text:
+            return True
+        ok = n.type.valid_content(n.content) and all(
+            n.type.allows_marks(ch.marks) for ch in n.content.content)
+        if not ok:
+            bad.append((n, pos))
+        return True
+    res.doc.descendants(visit)
+    if not bad:
+        return None
+    for n, pos in bad:
+        try:
+            o = doc.node_at(pos)
+        except Exception:  # noqa: BLE001
+            return None
+        if o is None or o.type is not n.type or not n.child_count < o.child_count:
+            return None
+        if not (st.from_ <= pos and pos + o.node_size <= st.to):
+            return None
+        # the marks of the merged node's children must be allowed (the only defect is the count)
+        if not all(n.type.allows_marks(ch.marks) for ch in n.content.content):
+            return None
+    return "C01-mark-step-merges-counted-text"
 
 
 def _valid(doc):
@@ -112,6 +198,8 @@ def classify(case):
     if d.get("case") != "apply":
         return None
     sd = d["obs"]["step"]
+    if sd["type"] in ("AddMarkStep", "RemoveMarkStep") and d["obs"]["result"][0] == "ok":
+        return _merged_counted_text(sc, doc, S.step_from_desc(sc, sd))
     if sd["type"] != "ReplaceAroundStep" or d["obs"]["result"][0] != "ok":
         return None
     st = S.step_from_desc(sc, sd)
